@@ -399,7 +399,9 @@ DlDel(x) == /\ On("dl") /\ LLive(x)
             /\ UNCHANGED oDl
 
 (* ---------------------------------------------------------------- full nondeterminism (MC) ---- *)
-NextVec == \E k \in VKinds, x \in Pool :
+\* a family that is switched off costs nothing: its slots are not even enumerated (constant-level bounds)
+PoolOn(k) == IF k \in Kinds THEN Pool ELSE {}
+NextVec == \E k \in VKinds \cap Kinds, x \in Pool :
              \/ \E n \in Dims : VNew(k, x, n) \/ VResize(k, x, n)
              \/ VInit(k, x) \/ VDel(k, x) \/ VSort(k, x)
              \/ \E v \in Vals : VAppend(k, x, v) \/ VHas(k, x, v) \/ VIndexOf(k, x, v) \/ VFill(k, x, v)
@@ -407,14 +409,14 @@ NextVec == \E k \in VKinds, x \in Pool :
              \/ \E i \in Idxs, v \in Vals : VSet(k, x, i, v) \/ VSetOor(k, x, i, v)
              \/ \E y \in Pool : VCopy(k, x, y)
              \/ \E b, y \in Pool : VExtend(k, x, b, y)
-NextSv == \E x \in Pool :
+NextSv == \E x \in PoolOn("sv") :
              \/ SvInit(x) \/ SvDel(x)
              \/ \E n \in Dims : SvNew(x, n) \/ SvResize(x, n)
              \/ \E s \in StrVals : SvAppend(x, s)
              \/ \E v \in Vals : SvAppendInt(x, v) \/ SvAppendDouble(x, v)
              \/ \E i \in Idxs : SvGet(x, i) \/ \E s \in StrVals : SvSet(x, i, s)
              \/ \E b, y \in Pool : SvExtend(x, b, y)
-NextMx == \E x \in Pool :
+NextMx == \E x \in PoolOn("mx") :
              \/ MxInit(x) \/ MxDel(x)
              \/ \E r, c \in Dims : MxNew(x, r, c) \/ MxResize(x, r, c)
              \/ \E v \in Vals : MxFill(x, v)
@@ -423,7 +425,7 @@ NextMx == \E x \in Pool :
              \/ \E i \in Idxs : MxGetRowOor(x, i) \/ MxGetColOor(x, i) \/ MxDelRow(x, i) \/ MxDelCol(x, i)
                                \/ \E y \in Pool : MxGetRow(x, i, y) \/ MxGetCol(x, i, y)
              \/ \E v \in VecsUpTo(MaxDim), ui \in BOOLEAN : MxAppendRow(x, v, ui) \/ MxAppendCol(x, v, ui)
-NextTn == \E x \in Pool :
+NextTn == \E x \in PoolOn("tn") :
              \/ TnInit(x) \/ TnDel(x)
              \/ \E n \in Dims : TnNew(x, n)
              \/ \E r, c \in Dims : TnAdd(x, r, c) \/ (\E k \in Idxs : TnNewMatrix(x, k, r, c)) \/ (\E f \in CellsOf(r, c) : TnAppendMatrix(x, r, c, f))
@@ -431,7 +433,7 @@ NextTn == \E x \in Pool :
              \/ \E k \in Idxs, v \in VecsUpTo(MaxDim) : TnAppendCol(x, k, v)
              \/ \E v \in Vals : TnFill(x, v)
              \/ \E y \in Pool : TnCopy(x, y)
-NextDl == \E x \in Pool :
+NextDl == \E x \in PoolOn("dl") :
              \/ DlInit(x) \/ DlNew0(x) \/ DlDel(x)
              \/ \E v \in VecsUpTo(MaxDim) : DlAppend(x, v)
 Next == NextVec \/ NextSv \/ NextMx \/ NextTn \/ NextDl
